@@ -93,6 +93,8 @@ def sched_parts(pid: str, tier: str):
         mons = ("C04",)
         mk("whole-run-N3", Cfg(N=3, resources="tma", flavours="sa", routes="dac", monitors=mons), base_req, 600)
         mk("whole-run-N3-nested", Cfg(N=3, resources="tma", max_async=1, nested=True, sym_seq=False, monitors=mons), base_req, 600)
+        mk("whole-run-N3-selection", Cfg(N=3, resources="tm", selection=True, sym_seq=False, monitors=mons), base_req, 600)
+        mk("setup-run-N3-selection", Cfg(N=3, resources="tm", selection=True, sym_seq=False, setup_call=True, monitors=mons), ["w_returned", "w_setup_call", "w_parallel"], 600)
         from harness.history import HCfg, run_c11
 
         # main-thread nodes run on the invoking (event-loop) thread in every operation, setup() included: real threads, real loop
@@ -106,6 +108,8 @@ def sched_parts(pid: str, tier: str):
         mk("whole-run-N3-nested", Cfg(N=3, resources="tm", nested=True, monitors=mons), base_req, 600)
         # sub-graph executions (executor selections, DAG.setup) read the same flags
         mk("whole-run-N3-selection", Cfg(N=3, resources="t", selection=True, monitors=mons), base_req, 600)
+        # an earlier call before the reconfiguration: what that call cached must not outlive config_from_dict
+        mk("whole-run-N3-warmup-reconf", Cfg(N=3, resources="t", routes="cs", warmup=True, monitors=mons), base_req + ["w_warmup"], 600)
         mk("setup-run-N3-selection", Cfg(N=3, resources="tm", selection=True, setup_call=True, monitors=mons), ["w_returned", "w_setup_call", "w_parallel"], 600)
         if not q:
             mk("whole-run-N4", Cfg(N=4, resources="tma", max_async=1, monitors=mons), base_req, 1500, 9)
@@ -121,6 +125,7 @@ def sched_parts(pid: str, tier: str):
         # the table the scheduler reads equals the property's definition also for DAGs that are not built by @dag
         parts.append(Part("priority-table-N4-insertion-orders", P(run_c07, GCfg(N=4, relabel=False, debug=False, selection=False, reconf=False, rebuild=True)),
                           {"N": 4, "insertion orders": 24, "how": "DAG(exec_nodes=...) with permuted node table; compose()"}, 600, 5, ["w_rebuilt"], GRAPH_FUNCS))
+        parts.append(Part("priority-table-N4-reconf", P(run_c07, GCfg(N=4, relabel=False, debug=False, rebuild=False, selection=False)), {"N": 4, "reconfiguration": "none, all nodes or one node", "what": "the table the scheduler reads after config_from_dict"}, 600, 5, ["w_diamond", "w_reconfigured"], GRAPH_FUNCS))
         if not q:
             mk("whole-run-N3-prio-all-resources", Cfg(N=3, resources="tma", sym_prio=True, monitors=mons), base_req, 1500)
             mk("whole-run-N4-prio", Cfg(N=4, resources="tm", sym_prio=True, sym_seq=False, monitors=mons), base_req, 1500, 9)
@@ -272,6 +277,7 @@ def graph_parts(pid: str, tier: str):
     elif pid == "C13":
         parts.append(Part("debug-N3", P(run_c13, GCfg(N=3, setup=True, activation=True, combined=True)), {"N": 3, "debug placement": "every subset", "modes": "call, executor(target/exclude/root x node), setup"}, 600, 5, ["w_invalid_rejected", "w_debug_ran", "w_debug_with_selection", "w_debug_pulled_in", "w_combined_selection"], GRAPH_FUNCS))
         parts.append(Part("debug-N4-combined", P(run_c13, GCfg(N=4, setup=False, combined=True, reconf=False)), {"N": 4, "modes": "call, single and combined (root+target, root+exclude) selections"}, 900, 6, ["w_debug_ran", "w_combined_selection"], GRAPH_FUNCS))
+        parts.append(Part("debug-N3-async", P(run_c13, GCfg(N=3, setup=True, activation=False, combined=False, reconf=False, flavours="a")), {"N": 3, "flavour": "AsyncDAG", "modes": "call, executor(target/exclude/root x node), setup, setup then call"}, 600, 5, ["w_debug_ran", "w_debug_with_selection"], GRAPH_FUNCS))
         from harness.graph import run_c13_build
 
         parts.append(Part("build-validation-routes", P(run_c13_build, GCfg()), {"nodes": "debug / non-debug producer and consumer, one production bystander", "routes": "positional, keyword, flag, indexed, indexed flag, unpacked, operator, nested DAG argument, nested DAG flag with / without inputs, flag applied inside the nested DAG"},
